@@ -798,7 +798,7 @@ func (r *envelopingReader) Read(data []byte) (n int, err error) {
 	if r.err != nil {
 		return 0, r.err
 	}
-	if r.current != nil {
+	if r.current != nil && r.envRemain == 0 {
 		bytesRead, err := r.current.Read(data)
 		isEOF := errors.Is(err, io.EOF)
 		if bytesRead > 0 && (err == nil || isEOF) {
@@ -811,9 +811,13 @@ func (r *envelopingReader) Read(data []byte) (n int, err error) {
 		// otherwise EOF, fall through
 	}
 
-	if err := r.prepareNext(); err != nil {
-		r.err = err
-		return 0, err
+	// If part of the current envelope is still undelivered (the previous
+	// read buffer was smaller than the envelope), finish it first.
+	if r.envRemain == 0 {
+		if err := r.prepareNext(); err != nil {
+			r.err = err
+			return 0, err
+		}
 	}
 
 	if len(data) < r.envRemain {
